@@ -269,6 +269,38 @@ int main(int argc, char ** argv) {
                     if (got.size() != 3) report("session|count", std::to_string(got.size()) + " objects delivered instead of 3", lab);
                     else for (int i = 0; i < 3; i++) if (got[i] != KNOWN[i]) report("session|modified", "known object delivered modified", lab);
                 }
+            /* unknown objects that straddle containers, the next container arriving only on demand (stream buffer of one byte)
+             * or ahead of the decoder (default buffer): the skip runs past the data delivered so far */
+            for (uint32_t t : {0u, 132u})
+                for (uint32_t sz : {16u, 20u, 33u, 48u, 96u, 200u})
+                    for (int fake = 0; fake < 2; fake++)
+                        for (int where = 0; where < 4; where++)
+                            for (long cont : {7L, 16L, 24L, 64L})
+                                for (long buf : {1L, 0L}) {
+                                    if ((ord++ % nshards) != shard) continue;
+                                    Bytes u = unknown_object(t, sz, fake != 0, 32, 1);
+                                    std::string us(u.begin(), u.end()), e;
+                                    Bytes s = compose(where == 0 ? us : e, where == 1 ? us : e, where == 2 ? us : e, where == 3 ? us : e);
+                                    std::string lab = "session: unknown type " + std::to_string(t) + " declared size " + std::to_string(sz) + (fake ? " containing the signature bytes" : "") +
+                                                      " at position " + std::to_string(where) + ", containers of " + std::to_string(cont) + (buf ? ", stream buffer 1" : ", default stream buffer");
+                                    snprintf(g_cur->label, sizeof g_cur->label, "%s", lab.c_str());
+                                    blfasm::save(path, blfasm::file_bytes(s, (size_t)cont, 0, false, 3));
+                                    g_eval++;
+                                    vs_begin(nullptr, 0, &cfg);
+                                    std::vector<Bytes> got;
+                                    {
+                                        File file;
+                                        if (buf) file.m_uncompressedFile.setBufferSize(buf);
+                                        file.open(path.c_str());
+                                        while (ObjectHeaderBase * o = file.read()) { MemFile m; o->write(m); got.push_back(m.data); delete o; }
+                                        file.close();
+                                    }
+                                    vs_result_t vr;
+                                    vs_end(&vr);
+                                    g_distinct_outcomes.insert("session-unknown");
+                                    if (got.size() != 3) report("session-unknown|count", std::to_string(got.size()) + " objects delivered instead of 3", lab);
+                                    else for (int i = 0; i < 3; i++) if (got[i] != KNOWN[i]) report("session-unknown|modified", "known object delivered modified", lab);
+                                }
             samples.push_back("session: filler 'LOB' everywhere, containers of 7");
         }
         std::ostringstream o;
